@@ -30,9 +30,11 @@ class History:
         rng = self.rng
         r = rng.random()
         big = self.mode != "small"
-        if r < 0.45 or not self.keys[t]:
+        if r < (0.8 if self.mode == "grow" else 0.45) or not self.keys[t]:
             k = self.nextk; self.nextk += 1
             n = rng.choice([5, 30, 300, 700] if big else [5, 20])
+            if self.mode == "grow":
+                n = rng.choice([400, 600, 700])
             v = pad(n, k)
             self.pending_keys = (t, "add", k)
             return ("INSERT INTO %s(k,g,v) VALUES (%d, %d, '%s');" % (t, k, k % 7, v),
@@ -79,6 +81,8 @@ class History:
         # a long-running transaction that stays open while other work commits (its records reach the
         # durable log through other transactions' commits and through evictions: recovery must undo it)
         bg_at = rng.randrange(0, max(1, nunits - 2)) if rng.random() < 0.7 else None
+        if self.mode == "grow":
+            bg_at = None        # tables grow page by page and checkpoints (possible only with no transaction open) are frequent
         bg_open, bg_ops = False, 0
         for u in range(nunits):
             if bg_at is not None and u >= bg_at and (not bg_open or rng.random() < 0.5) and bg_ops < 6:
@@ -102,6 +106,8 @@ class History:
                 bg_ops += 1
             label += 1
             kind = rng.random()
+            if self.mode == "grow":
+                kind = kind * 0.55 if kind < 0.6 else (0.6 if kind < 0.75 else 0.95)
             t = rng.choice(TABLES)
             if kind < 0.55:
                 sql, rl, what = self.stmt(t)
@@ -154,6 +160,10 @@ class History:
             if db.dead:
                 self.fail = "engine stopped answering during the history: " + db.dead
                 return
+        if self.mode == "grow":
+            db.cmd("checkpoint")
+            db.cmd("mark CKPT")
+            self.desc.append("checkpoint")
         # leave one transaction in flight
         if rng.random() < 0.7:
             label += 1
